@@ -48,15 +48,73 @@ func c20hRun(c c20hCase, v *vlib.Verdict) {
 	v.NonTrivial = len(c.Blocks) >= 2 && matching >= 1 && matching < len(c.Blocks)
 	v.Labelf("blocks=%d", len(c.Blocks))
 	v.Labelf("matching=%d", matching)
+	c20hLabelShapes(c.Blocks, c.Host, v)
 	if fmt.Sprint(got) != fmt.Sprint(want) {
 		v.Failf("C20:matchhost-wrong-blocks", "MatchHost(%q) over %v merged %v, reference says %v", c.Host, c.Blocks, got, want)
 	}
 }
 
-func c20hGen(t *rapid.T) c20hCase {
+// c20hLabelShapes counts the degenerate block shapes: a block WITHOUT patterns (list nil or
+// empty - what the TOML loader leaves for a [[Hosts]] table without a Patterns line resp. with
+// "Patterns = []") matches no host at all, wherever it stands in the list and whatever the
+// blocks around it do; a pattern that is the empty string matches the empty host only.
+func c20hLabelShapes(blocks [][]string, host string, v *vlib.Verdict) {
+	prevMatched := false
+	for _, pats := range blocks {
+		hit := false
+		for _, p := range pats {
+			if p == "" {
+				v.Label("empty-string-pattern")
+			}
+			if refglob.Match(p, host) {
+				hit = true
+			}
+		}
+		if len(pats) == 0 {
+			if pats == nil {
+				v.Label("block-without-patterns:nil")
+			} else {
+				v.Label("block-without-patterns:empty-list")
+			}
+			if prevMatched {
+				v.Label("block-without-patterns:after-a-matching-block")
+			} else {
+				v.Label("block-without-patterns:after-none-or-a-non-matching-block")
+			}
+		}
+		prevMatched = hit
+	}
+	if host == "" {
+		v.Label("empty-host")
+	}
+}
+
+// c20Patterns draws the pattern list of one host block: usually 1..3 patterns, one time in
+// five NO pattern (nil list or empty non-nil list), and the empty string is a pattern like any
+// other (alone or among others).
+func c20Patterns(t *rapid.T, tag string) []string {
 	pat := rapid.StringMatching(`[ab*]{0,5}|[ab]{1,3}\*|\*[ab]{1,3}|[ab]{0,2}\*[ab]{1,2}`)
-	blocks := rapid.SliceOfN(rapid.SliceOfN(pat, 1, 3), 0, 6).Draw(t, "blocks")
-	host := rapid.StringMatching(`[ab]{1,6}`).Draw(t, "host")
+	switch rapid.IntRange(0, 9).Draw(t, tag+"-shape") {
+	case 0:
+		return nil
+	case 1:
+		return []string{}
+	case 2:
+		l := rapid.SliceOfN(pat, 0, 2).Draw(t, tag)
+		at := rapid.IntRange(0, len(l)).Draw(t, tag+"-empty-at")
+		return append(append(append([]string{}, l[:at]...), ""), l[at:]...)
+	}
+	return rapid.SliceOfN(pat, 1, 3).Draw(t, tag)
+}
+
+func c20hGen(t *rapid.T) c20hCase {
+	n := rapid.IntRange(0, 6).Draw(t, "nblocks")
+	blocks := make([][]string, 0, n)
+	for i := 0; i < n; i++ {
+		blocks = append(blocks, c20Patterns(t, fmt.Sprintf("blk%d", i)))
+	}
+	// the empty host now and then (Glob is total: only "" and runs of stars produce it)
+	host := rapid.StringMatching(`[ab]{1,6}|[ab]{0,2}`).Draw(t, "host")
 	return c20hCase{Blocks: blocks, Host: host}
 }
 
@@ -89,6 +147,7 @@ func TestVerifC20MatchHost(t *testing.T) {
 
 type c20sBlock struct {
 	Patterns     []string `json:"patterns,omitempty"`
+	NoPatterns   int      `json:"nopatterns,omitempty"` // only when Patterns is empty: 0/1 = no Patterns key (nil list), 2 = "Patterns = []" (empty list)
 	Hostname     string   `json:"hostname,omitempty"` // "" = not set
 	User         string   `json:"user,omitempty"`
 	Key          string   `json:"key,omitempty"`
@@ -132,6 +191,8 @@ func (b c20sBlock) literal() HostConfigOptional {
 	}
 	if len(b.Patterns) > 0 {
 		h.Patterns = append([]string(nil), b.Patterns...)
+	} else if b.NoPatterns == 2 {
+		h.Patterns = []string{}
 	}
 	if len(b.CAFiles) > 0 {
 		h.CAFiles = append([]string(nil), b.CAFiles...)
@@ -160,6 +221,9 @@ func (b c20sBlock) toml(sb *strings.Builder) {
 		}
 	}
 	list("Patterns", b.Patterns)
+	if len(b.Patterns) == 0 && b.NoPatterns == 2 {
+		sb.WriteString("Patterns = []\n")
+	}
 	str("Hostname", b.Hostname)
 	str("User", b.User)
 	str("Key", b.Key)
@@ -380,14 +444,28 @@ func c20sRun(c c20sCase, v *vlib.Verdict) {
 	v.Labelf("via=%s", c.Via)
 	v.Labelf("lookups=%d", len(c.Ops))
 	v.Labelf("distinct-applied-sets=%d", len(appliedSets))
+	for i, b := range c.Blocks {
+		if len(b.Patterns) == 0 {
+			v.Labelf("block-without-patterns:%s", map[bool]string{false: "nil", true: "empty-list"}[b.NoPatterns == 2])
+			if i > 0 {
+				v.Label("block-without-patterns:not-first")
+			}
+		}
+	}
 }
 
 func c20sGen(t *rapid.T) c20sCase {
-	pat := rapid.StringMatching(`[ab*]{0,5}|[ab]{1,3}\*|\*[ab]{1,3}|[ab]{0,2}\*[ab]{1,2}`)
 	block := func(tag string, global bool) c20sBlock {
 		var b c20sBlock
 		if !global {
-			b.Patterns = rapid.SliceOfN(pat, 1, 3).Draw(t, tag+"-patterns")
+			b.Patterns = c20Patterns(t, tag+"-patterns")
+			if len(b.Patterns) == 0 {
+				b.NoPatterns = 1
+				if b.Patterns != nil {
+					b.NoPatterns = 2
+				}
+				b.Patterns = nil
+			}
 		}
 		set := 0 // one bit per option
 		for j, on := range rapid.SliceOfN(rapid.Bool(), 7, 7).Draw(t, tag+"-set") {
@@ -427,7 +505,7 @@ func c20sGen(t *rapid.T) c20sCase {
 	for i := 0; i < nb; i++ {
 		c.Blocks = append(c.Blocks, block(fmt.Sprintf("blk%d", i), false))
 	}
-	host := rapid.StringMatching(`[ab]{1,6}`)
+	host := rapid.StringMatching(`[ab]{1,6}|[ab]{0,2}`)
 	nops := rapid.SampledFrom([]int{1, 2, 2, 3, 3, 4, 5, 6}).Draw(t, "nops")
 	for i := 0; i < nops; i++ {
 		op := c20sOp{After: rapid.SampledFrom([]int{c20sAfterNothing, c20sAfterNothing, c20sAfterAddress, c20sAfterFlags, c20sAfterMerge, c20sAfterUnwrap}).Draw(t, "after")}
